@@ -19,8 +19,9 @@ CLAIMS = {
               "the encoding (followed by anything) returns the canonical value and leaves exactly what followed; "
               "C01_bulk_loop_exact covers the chunked byte-vector loop for every length. The model is tied to /repo "
               "on every run by a differential run through all six entry points over ~210 catalogue types "
-              "(partial only in that keys which themselves contain keyed collections or deques are covered by the "
-              "differential run, not the theorem). Supporting laws proved for all representations: Val.cmp is a total "
+              "(partial only in that keys which contain hash collections, deques, skipped fields or init hooks are outside the theorem - "
+              "ordered sets and maps of key types are key types; C01_skipped_key_field_boundary is the kernel-evaluated, replayed witness "
+              "that the exclusion of skipped fields inside keys is necessary). Recursive and generic user types are catalogue types (mu-terms unfolded by the driver). Supporting laws proved for all representations: Val.cmp is a total "
               "order; sort of distinct keys is strictly ascending; ascending lists are fixed points of sort and collect."),
         technique="Lean 4 proof by structural induction over a nested type universe + differential correspondence check",
         design_ref="§5 C01"),
@@ -68,7 +69,7 @@ CLAIMS['C04'] = dict(
           "C04_decode_injective - for every well-formed type without index collections (F6) and init hooks. "
           "Modes: C04_strict_accept_implies_lax (lax accepts whatever strict accepts, same value, every type) and "
           "C04_mode_irrelevant_without_order (on types without a hash/ordered set or map the two decoders are the "
-          "same function), so the inputs lax mode adds can only involve such a collection. C04_modes_differ_only_by_key_order / C04_lax_extra_inputs (every type, every byte string, any reader): strict mode answers exactly as lax mode or with the key-order rejection, so the only inputs lax mode adds are unsorted or repeated entries."),
+          "same function), so the inputs lax mode adds can only involve such a collection. C04_modes_differ_only_by_key_order / C04_lax_extra_inputs (every type, every byte string, any reader): strict mode answers exactly as lax mode or with the key-order rejection, so the only inputs lax mode adds are unsorted or repeated entries. C04_lax_set_is_collected_sequence / C04_lax_map_is_collected_sequence (any reader): without strict ordering a set / map is read exactly as the sequence of its elements / (K, V) pairs and then collected - same acceptance, same bytes consumed; workload lax_collections feeds sequence-writer encodings with repeats, disorder and a tail to the set and map decoders in both modes."),
     technique="Lean 4 proof (acceptance/rejection lemmas over the universe, kernel-decided counterexample) + differential check with re-encode oracle",
     design_ref="§5 C04")
 
@@ -132,7 +133,7 @@ CLAIMS['C09'] = dict(
           "(pigeonhole on the duplicate-free stack of defined declarations: |definitions|+1 levels suffice). "
           "Partial: specMax is an executable specification with the same cycle rule (a declaration met again on the "
           "current path is unbounded), not a semantic supremum over all values; which of several simultaneous errors "
-          "is reported is compared per case only. Soundness against values, every container (C09_sound_container / C09_sound_stream, via sdec_bound): whenever a maximum is reported, no byte string that a schema-only reader walks exactly is longer, so specMax is an upper bound on what the schema describes and not only a formula; C09_sound_types: with Bnd (derived from for_type for built-in compositions by C08_builtin_bound) no value of the Rust type serializes to more bytes than the reported maximum. Tightness (C09_tight / C09_is_maximum, via specMax_attained): on every readable container (non-empty enums with distinct in-range discriminants, ranges that fit their width - checked for the container of every Rust type on every run) the reported maximum is attained by a described byte string, so it is the true maximum."),
+          "is reported is compared per case only. Soundness against values, every container (C09_sound_container / C09_sound_stream, via sdec_bound): whenever a maximum is reported, no byte string that a schema-only reader walks exactly is longer, so specMax is an upper bound on what the schema describes and not only a formula; C09_sound_types: with Bnd (derived from for_type for built-in compositions by C08_builtin_bound) no value of the Rust type serializes to more bytes than the reported maximum. Tightness (C09_tight / C09_is_maximum, via specMax_attained): on every readable container (non-empty enums with distinct in-range discriminants, ranges that fit their width - checked for the container of every Rust type on every run) the reported maximum is attained by a described byte string, so it is the true maximum. C09_sound_rust_types: end to end for every name-coherent Rust type (derived structs and enums included) - whatever maximum is reported for the container for_type generates, no value of the type serializes to more bytes."),
     technique="Lean 4 proof (exactness by induction on the fuelled evaluation) + differential check incl. specification verdict per case",
     design_ref="§5 C09")
 CLAIMS['C10'] = dict(
@@ -163,7 +164,7 @@ CLAIMS['C14'] = dict(
           "collection's container gets the ZSTSequence verdict: wireZero => ZeroSized by induction over the universe, "
           "then validate_flags_zst_root through the is_zero_size iff). Differential run over 28 collection types (incl. VecDeque, "
           "LinkedList, hash/btree/index sets and maps, 3 hashers) x zero-sized element shapes x claimed lengths "
-          "{0,1,2,2^32-1}, both directions, with counting reader/writer (0 read calls, 0 bytes written). The agreement clause is also judged directly on the real code: the zero-sized collections that have a schema (26 types, incl. elements reaching () / PhantomData / RangeFull twice) go through for_type + validate; refused at run time implies ZSTSequence, the root is named, every value is refused."),
+          "{0,1,2,2^32-1}, both directions, with counting reader/writer (0 read calls, 0 bytes written). The agreement clause is also judged directly on the real code: the zero-sized collections that have a schema (26 types, incl. elements reaching () / PhantomData / RangeFull twice) go through for_type + validate; refused at run time implies ZSTSequence, the root is named, every value is refused. C14_agreement_coherent / C14_agreement_coherent_set: the agreement of run-time refusal and schema verdict for every name-coherent element type (derived unit structs, structs of PhantomData and zero-length arrays), end to end from for_type."),
     technique="Lean 4 proof (refusal lemmas over an arbitrary reader) + differential check with counting reader/writer",
     design_ref="§5 C14")
 CLAIMS['C17'] = dict(
@@ -237,7 +238,7 @@ CLAIMS['C15'] = dict(
           "(/verif/miri: N in {0,1,2,3,5,8,17}, every failing position, error and panic mode, zero-sized elements "
           "with drop glue, truncated input; undefined behaviour or a leak is a violation with the execution as "
           "replay). Partial: Miri explores the sampled executions, it does not prove UB-freedom of the unsafe "
-          "block for all N; the theorem covers the bookkeeping for all N."),
+          "block for all N; the theorem covers the bookkeeping for all N. C15_exactly_once_with_unwinding_destructor (a destructor unwinding during the guard's cleanup changes how the call ends, not which elements are released; errdrop lines); workloads: zero-sized elements with drop glue, arrays above 4096 bytes, Interrupted / bare-kind element failures."),
     technique="Lean 4 proof (loop invariant over a state machine, all N and plans) + event-for-event differential check with an instrumented element type",
     design_ref="§5 C15")
 
